@@ -578,6 +578,15 @@ func run(ctx *fw.Ctx, rep *fw.Report) {
 			}
 		}
 	}
+	// A thread's SECOND call after a frame the client cannot accept: the tags of
+	// the calls failed by the fault are free again while the server may still
+	// answer the abandoned requests (quick: two fault kinds at the first reply;
+	// thorough enumerates every fault at every reply of this shape above).
+	if ctx.Quick() {
+		for _, fk := range []string{fUnknownTag, fWrongType} {
+			scs = append(scs, scenario(params{Threads: [][]string{{"getattr", "getattr"}, {"getattr"}}, Fault: fk, FaultAt: 0}))
+		}
+	}
 	// (iv) a second client of the same process after the first one's connection broke
 	nOther := 0
 	for _, fk := range []string{fClose, fHalfClose, fGarbage} {
